@@ -28,8 +28,7 @@ Theorem order_defined : forall fs ps,
   local_acyclic fs ps -> exists o, dep_order fs ps = Done o.
 Proof. exact order_defined_proof. Qed.
 
-(* cycle clause, algorithmic level: the Gallina mirror of _find_cycles (Tarjan.v).
-   Not proved: that every *reported* component is a strongly connected component. *)
+(* cycle clause, algorithmic level: the Gallina mirror of _find_cycles (Tarjan.v) *)
 Require Import EmbossV.Deps.Tarjan EmbossV.Deps.TarjanProofs.
 
 Theorem tarjan_none_iff_acyclic : forall g fuel, closed g -> length g < fuel ->
@@ -45,3 +44,58 @@ Proof. exact tarjan_verdict_proof. Qed.
 Theorem tarjan_agrees_with_acyclic_dec : forall g, closed g ->
   exists C, find_cycles (S (length g)) g = TOk C /\ (C = [] <-> acyclic_dec g = true).
 Proof. exact tarjan_agrees_with_acyclic_dec_proof. Qed.
+
+(* what is reported: each component is a strongly connected component containing a cycle
+   (members mutually reachable through >= 1 edge, maximal), every node on a cycle is in a
+   reported component, and no node is reported twice (NoDup of the concatenation: no
+   duplicates inside a component, components pairwise disjoint) *)
+Require Import EmbossV.Deps.TarjanSCC.
+
+Theorem tarjan_components_are_sccs : forall g fuel, closed g -> length g < fuel ->
+  exists C, find_cycles fuel g = TOk C /\
+    (forall comp, In comp C -> cyclic_scc g comp) /\
+    (forall v, In v (nodes g) -> clos_trans N (edge g) v v -> exists comp, In comp C /\ In v comp) /\
+    NoDup (concat C).
+Proof. exact tarjan_components_are_sccs_proof. Qed.
+
+(* every strongly connected set with a cycle is one entry of the result, and no other entry touches it *)
+Theorem tarjan_reports_each_scc_once : forall g fuel C S, find_cycles fuel g = TOk C ->
+  cyclic_scc g S ->
+  exists l1 comp l2, C = l1 ++ comp :: l2 /\ (forall x, In x S <-> In x comp) /\
+    forall c, In c (l1 ++ l2) -> forall x, In x S -> ~ In x c.
+Proof. exact tarjan_reports_each_scc_once_proof. Qed.
+
+(* ordering clause, placement of delayed fields (OrderMoves.v) *)
+Require Import EmbossV.Deps.OrderMoves.
+
+(* the exact behaviour of the loop: at every position the chosen field is ready and every
+   source-earlier field still to come is not; this determines the order *)
+Theorem order_greedy_spec : forall fs ps o, dep_order fs ps = Done o -> greedy_spec fs ps o.
+Proof. exact order_greedy_spec_proof. Qed.
+
+Theorem order_greedy_unique : forall fs ps o o',
+  dep_order fs ps = Done o -> Permutation o' (seq 0 (length fs)) -> greedy_spec fs ps o' -> o' = o.
+Proof. exact order_greedy_unique_proof. Qed.
+
+(* a field placed directly after a field that comes later in the source mentions that field,
+   i.e. it sits immediately after the last of its dependencies *)
+Theorem order_stable_moves : forall fs ps o, dep_order fs ps = Done o ->
+  forall l1 p i l2, o = l1 ++ p :: i :: l2 -> i < p ->
+  In (fname fs p) (fdeps fs i) /\ ~ In (fname fs p) ps /\
+  forall k, In k l1 -> fname fs k <> fname fs p.
+Proof. exact order_stable_moves_proof. Qed.
+
+(* stability: two fields keep their source order unless the earlier one still lacked a
+   dependency (not a parameter, not provided by anything placed so far) when the later one was placed *)
+Theorem order_stability : forall fs ps o, dep_order fs ps = Done o ->
+  forall l1 j l2 i, o = l1 ++ j :: l2 -> In i l2 -> i < j ->
+  exists d, In d (fdeps fs i) /\ ~ In d ps /\ forall k, In k l1 -> fname fs k <> d.
+Proof. exact order_stability_proof. Qed.
+
+(* the literal wording "every field placed after a source-later field sits immediately after
+   the last of its dependencies" is false of the loop: witness with two fields waiting for a third *)
+Theorem order_moves_refuted :
+  exists fs ps o i, dep_order fs ps = Done o /\
+    (exists j, i < j /\ before j i o) /\
+    ~ (exists l1 p l2, o = l1 ++ p :: i :: l2 /\ In (fname fs p) (fdeps fs i)).
+Proof. exact order_moves_refuted_proof. Qed.
